@@ -81,7 +81,7 @@ CHECKS = {
 
  "C04": dict(
    engine="B-cfgsolve",
-   technique="exhaustive enumeration of programs: all ordered term lists up to length 3 (thorough 4) over a 13-kind term alphabet; all length-3 sequences of solves on one variable over a 7-system alphabet x class x shape x BC set-up, executed with a spy solver against an independently accumulated dense system",
+   technique="exhaustive enumeration of programs: all ordered term lists up to length 3 (thorough 4) over a 16-kind term alphabet; all length-3 sequences of solves on one variable over a 7-system alphabet x class x shape x BC set-up, executed with a spy solver against an independently accumulated dense system",
    text="Every ordered term list within the length bound (matrix, vector, (matrix, vector) pairs, negated, scaled, plain tuple, SignedTuple and its negation; one mandatory well-conditioned base term at a varying position) is solved on 9 classes x 2 shapes x 3 BC set-ups; solvePDE must return its argument, the spy solver must have received exactly the hand-assembled system and its answer must be what the variable holds, residuals of interior and boundary rows must vanish, the result must equal solveMatrixPDE of the hand-assembled system and be independent of the term order; ghost rows of every builder are exactly zero on every grid instance; the solution is the superposition of unit-source, unit-boundary-datum and unit-previous-value solutions. Exhaustive over programs within the bound.",
    note="Programs whose assembled matrix is ill-conditioned (cond*eps > 1e-6) are reported as preconditions_failed; periodic set-ups use equal end cells (unequal ends are C03's recorded finding).",
    ref="DESIGN.md 4/C04"),
